@@ -243,15 +243,16 @@ pub fn decode_clock(bytes: &[u8]) -> ClockScn {
     let n_sinks = 1 + d.below(4);
     let sinks = (0..n_sinks)
         .map(|_| match d.below(4) {
-            0 | 1 => SinkSpec::default(),
+            0 => SinkSpec::default(),
+            1 => SinkSpec { forget_tb: d.below(2) == 1, ..SinkSpec::default() },
             2 => {
                 let k = d.below(5);
                 let t = d.pick(&[React::Terminate, React::Error]);
                 let mut react = vec![React::Nothing; k];
                 react.push(t);
-                SinkSpec { react, react_default: React::Nothing, credit: false, pull_after_end: false, rogue: false }
+                SinkSpec { react, react_default: React::Nothing, credit: false, pull_after_end: false, rogue: false, forget_tb: false }
             }
-            _ => SinkSpec { react: vec![], react_default: React::Pull, credit: false, pull_after_end: false, rogue: false },
+            _ => SinkSpec { react: vec![], react_default: React::Pull, credit: false, pull_after_end: false, rogue: false, forget_tb: false },
         })
         .collect();
     let mut steps = vec![CStep::Subscribe { src: 0, spawn: SpawnPlan::Ok, inline_poll: false }];
